@@ -1,6 +1,8 @@
 import HpxVerif.Lemmas.PolyLemmas
 import HpxVerif.Props.C16
 
+set_option autoImplicit false   -- an unknown identifier in a statement is an error, never a new variable
+
 /-!
 # C12 — polygon coverage keeps the vertex cells, is tight, and flags honestly
 
